@@ -20,7 +20,7 @@ import GoBk.Proofs.FastCurve
 namespace GoBk.IRAlg
 open GoBk.IR GoBk.IRA GoBk.Gen.Field GoBk.Proofs.Field
 
-abbrev F := GoBk.Proofs.F
+open GoBk.Proofs (F)
 
 theorem P_eq_spec : GoBk.Proofs.Field.P = GoBk.Spec.P := by decide
 
